@@ -442,12 +442,19 @@ def finalize_rules(fns, what, bad):
     gp = P.Enumerator().function(g)
     gparams = [a.arg for a in g.args.args]
     nob += 1
-    if gparams != ['text', 'pos'] or len(gp) != 1 or gp[0].end[0] != 'return':
-        raise AnalysisError(f'{what}: _get_line_and_column changed shape')
+    if gparams != ['text', 'pos']:
+        raise AnalysisError(f'{what}: _get_line_and_column signature changed to {gparams}')
     want = ('TUPLE', ('SUB', ('UNPACK', MAPCALL, 0), POS), ('SUB', ('UNPACK', MAPCALL, 1), POS))
-    if gp[0].end[1] != want:
-        bad('LINECOL-map', f'{what}: _get_line_and_column returns {P.tfmt(gp[0].end[1])[:120]}; expected the '
-                           f'entries of both tables of the whole text at pos, line first')
+    for p in gp:
+        if p.end[0] != 'return':
+            continue
+        if p.end[1] != want:
+            uses_map = any(x == MAPCALL for s in p.steps for t in ([s[3]] if s[0] == 'E' else [])
+                           if t is not None for x in P.subterms(t)) or any(x == MAPCALL for x in P.subterms(p.end[1]))
+            bad('LINECOL-map', f'{what}: _get_line_and_column returns {P.tfmt(p.end[1])[:120]}'
+                               + ('' if uses_map else ' and does not consult _map_index_to_line_and_column at all')
+                               + '; ParseError must read line and column from the same per-index tables of the '
+                                 'whole text that PartialParseError and the spans use (entries at pos, line first)')
     return nob
 
 
